@@ -8,6 +8,7 @@ import N2V.Model.Run
 import N2V.Lemmas.LoadSched
 import N2V.Lemmas.SchedWantTerm
 import N2V.Lemmas.SchedAcyclic
+import N2V.Lemmas.SchedReg
 namespace N2V.C06
 open N2V N2V.Sched
 
@@ -217,5 +218,22 @@ theorem cycle_among_requested_steps_is_diagnosed (g : Graph) (s s' : S) (f : Nat
     the invariant is kept from one call to the next. -/
 theorem cycle_free_ground_is_kept (g : Graph) (s s' : S) (f : Nat) (hai : AI g s) (h : want g s f = .ok () s') :
     AI g s' := want_acyclic g s s' f hai h
+
+/-- **No internal error on ANY graph** (the acyclicity hypothesis of `never_internal_error` is not
+    needed): for every graph with consistent cross references - cyclic or not -, `-j ≥ 1` and every
+    behaviour of the environment, `run::build` never ends in `BUG: no work to do and runner not
+    running`.  If the requested steps contain an ordering cycle the want phase returns the cycle
+    error and nothing runs; if it succeeds, the marked builds admit a rank (`regAcyc_of_ai`: number
+    of ordering ancestors) and `Work::run`, which never marks a new build, cannot stall. -/
+theorem never_internal_error_on_any_graph {E : Type} {g : Graph} (gok : GraphOK g) (dok : DepsOK g)
+    (a : Run.Args) (hpar : 0 < a.par) (c : Choices E) (e : E) : (Run.build g a c e).2.2 ≠ .bug :=
+  Run.build_no_bug_free gok dok a hpar c e
+
+/-- **Success means every wanted step is up to date, on any graph.** -/
+theorem success_means_all_up_to_date_on_any_graph {E : Type} {g : Graph} (gok : GraphOK g) (dok : DepsOK g)
+    (a : Run.Args) (hpar : 0 < a.par) (c : Choices E) (e : E) (n : Nat)
+    (h : (Run.build g a c e).2.2 = .done n) (b : Nat) :
+    (Run.build g a c e).1.st b = .unknown ∨ (Run.build g a c e).1.st b = .done :=
+  Run.build_done_settled_free gok dok a hpar c e n h b
 
 end N2V.C06
